@@ -126,7 +126,7 @@ check("C19", "exploration",
 check("C15", "model_checking",
   "stateless model checking of the real library under a cooperative scheduler: the library's sync / sync.atomic / channel / go operations are rewritten onto the verifsched scheduler at build time (mkoverlay AST rewrite, go build -overlay) and a deviation-bounded DFS enumerates every schedule of each scenario; oracle = no deadlock / leak / panic and equality with the serial execution",
   "7 scenarios of documented concurrent use (asyncPages consumer sequences against the readPages goroutine incl. use after Close; async GenericReader with seeks; two goroutines sharing one lazily indexed File; concurrently filled row groups committed in order; independent writer next to a reader or another writer sharing the process-wide pools, with pool hit/miss as explorer choices and poison on release; one goroutine per ColumnWriter; two goroutines on one codec value). For each, EVERY schedule within 1 (quick) / 2 (thorough) deviations from the default scheduler is executed on the implementation itself (preemptions, non-default wake-ups at blocking points, pool misses; select choices enumerated freely); every schedule must terminate without deadlock, goroutine leak or panic and produce exactly the serial result. Evidence counts schedules (traces validated against the implementation = executions), distinct scheduler states and scheduling steps.",
-  "Hooks: full sync/atomic/channel/go rewrite for the sched build (overlay, tags verif,debug,vsched; nothing committed to /repo). Sequential consistency at synchronisation granularity; unsynchronised plain-memory accesses are invisible to a cooperative scheduler (complement: after the exploration the same scenario bodies run free-running in a race-detector build, 300 / 3000 runs per case, reported under coverage.supplement - sampling, supplementary, not the deciding step); third-party codec goroutines uncontrolled; 2-3 goroutines, bounded deviations.",
+  "Hooks: full sync/atomic/channel/go rewrite for the sched build (overlay, tags verif,debug,vsched; nothing committed to /repo). Sequential consistency at synchronisation granularity; unsynchronised plain-memory accesses are invisible to a cooperative scheduler (complement: after the exploration the same scenario bodies run free-running in a race-detector build, 200 / 3000 runs per case (quick: every 6th S1 consumer sequence), reported under coverage.supplement - sampling, supplementary, not the deciding step); third-party codec goroutines uncontrolled; 2-3 goroutines, bounded deviations.",
   "DESIGN.md §2 C15")
 
 NOT_YET = "check not built yet in this round (design in DESIGN.md §2); not claimed until its check exists"
